@@ -97,6 +97,8 @@ def _project(root, names, secs):
             if rel.endswith(STG):
                 staging += 1
                 continue
+            if os.path.islink(p) and not os.path.exists(p):
+                continue                    # a dangling link / link loop: not a file, no run lists, sends or removes it
             if rel not in idx:
                 alien.append(rel)
                 continue
@@ -164,6 +166,13 @@ def run_case(case):
         os.makedirs(os.path.dirname(p), exist_ok=True)
         with open(p, "wb") as f:
             f.write(content_bytes(3) * 3 + b"stale tail of an interrupted transfer\n")
+    for side in case.get("dangling", ()):
+        # entries that cannot be stat'ed through (a link whose target is gone, a link to itself): they are no files, and their
+        # presence must not change what the run makes of everything else
+        root = _W[side]
+        if os.path.isdir(root):
+            os.symlink("pruned/target-that-is-gone", os.path.join(root, "zz-dangling"))
+            os.symlink("zz-loop", os.path.join(root, "zz-loop"))
     env = _env(case.get("env"))
     dry = case["dry"]
     before = _snapshot([_W["src"], _W["dst"]]) if dry else None
@@ -336,5 +345,8 @@ def random_cases(n, seed, dirs=("local", "push", "pull")):
             present = [i for i, m in enumerate(src) if m]
             if present:
                 case["links"] = [rng.choice(present)]
+        rng2 = random.Random(seed * 7919 + k)       # its own stream: the cases drawn above stay what they were
+        if rng2.random() < 0.12:
+            case["dangling"] = rng2.choice([("dst",), ("dst",), ("src",), ("src", "dst")])
         out.append(case)
     return out
